@@ -81,7 +81,7 @@ def corpus_sources(tier, rnd):
     if tier == "quick" and len(files) > 400:
         files = rnd.sample(files, 400)
     import gen
-    generated = gen.family_sources(rnd, 400 if tier == "quick" else 8000)
+    generated = gen.family_sources(rnd, 400 if tier == "quick" else 4000)
     return [("file:" + os.path.relpath(f, "/repo/laythe_vm/fixture"), open(f).read()) for f in files] + generated
 
 
@@ -146,17 +146,23 @@ def run(pid, tier, replay=None):
     v.notes["sources"] = len(cases)
     v.notes["sources_rejected_by_compiler"] = rejected
     os.makedirs(vlib.WORK, exist_ok=True)
-    path = os.path.join(vlib.WORK, f"funs_{os.getpid()}.ndjson")
-    with open(path, "w") as f:
-        for rec in funs:
-            f.write(json.dumps(rec) + "\n")
-    r = vlib.tlc("Bytecode", "Bytecode", env={"FUNS": path}, workers=min(vlib.NCPU, 12), timeout=600 if tier == "quick" else 3300, heap="16g")
-    os.remove(path)
-    if r["distinct"] == 0 or r["timeout"] or any(e.startswith("Error:") for e in r["errors"]):
-        raise vlib.ToolError("TLC verifier failed:\n" + r["out"][-2500:])
-    v.cov["states"] = r["distinct"]
-    v.cov["transitions"] = r["states"]
-    states = vlib.tlc_json(r["out"], "ST")
+    # TLC holds the functions of one run as a single value: verify them in chunks of 2500
+    states = []
+    CH = 2500
+    for k in range(0, len(funs), CH):
+        path = os.path.join(vlib.WORK, f"funs_{os.getpid()}_{k}.ndjson")
+        with open(path, "w") as f:
+            for rec in funs[k:k + CH]:
+                f.write(json.dumps(rec) + "\n")
+        r = vlib.tlc("Bytecode", "Bytecode", env={"FUNS": path}, workers=min(vlib.NCPU, 12), timeout=600 if tier == "quick" else 1800, heap="16g")
+        os.remove(path)
+        if r["distinct"] == 0 or r["timeout"] or any(e.startswith("Error:") for e in r["errors"]):
+            raise vlib.ToolError("TLC verifier failed:\n" + r["out"][-2500:])
+        v.cov["states"] += r["distinct"]
+        v.cov["transitions"] += r["states"]
+        for st in vlib.tlc_json(r["out"], "ST"):
+            st["f"] += k          # function numbers are per chunk
+            states.append(st)
     per = collections.defaultdict(set)
     breaches = collections.defaultdict(set)
     normal_arrivals = collections.defaultdict(set)
